@@ -17,6 +17,7 @@ import (
 	"os"
 	"strconv"
 	"strings"
+	"sync"
 )
 
 var (
@@ -51,7 +52,11 @@ func ensure() {
 	}
 }
 
+var mu sync.Mutex
+
 func fresh(name string) string {
+	mu.Lock()
+	defer mu.Unlock()
 	ensure()
 	k := counts[name]
 	counts[name] = k + 1
